@@ -33,9 +33,9 @@ import (
 // CAns is the proxy's answer to one CONNECT request.
 type CAns struct {
 	Status int `json:"status"` // 200 = tunnel
-	// none | length | chunked : how the error page is announced. ("silent": the proxy accepts the CONNECT and sends
-	// Sent (0 = nothing) incomplete header blocks. Never generated - pandora offers no setting that bounds that wait -,
-	// understood by the proxy so that a hand-written replay case can show what happens.)
+	// none | length | chunked : how the error page is announced. "silent": the proxy accepts the CONNECT and sends
+	// Sent (0 = nothing) incomplete header blocks; the dial timeout has to end that wait (finding
+	// connect-gun-silent-proxy-blocks-forever, repaired).
 	Framing   string `json:"framing"`
 	Declared  int    `json:"declared"`        // announced body size (length) / size of the chunks sent (chunked)
 	Sent      int    `json:"sent"`            // bytes of the page really delivered (<= Declared)
@@ -66,8 +66,10 @@ type ConnectCase struct {
 
 func genCAns(t *rapid.T) CAns {
 	a := CAns{Status: rapid.SampledFrom([]int{301, 400, 403, 404, 407, 429, 500, 502, 503, 504, 599}).Draw(t, "status")}
-	a.Framing = rapid.SampledFrom([]string{"none", "length", "length", "chunked"}).Draw(t, "framing")
+	a.Framing = rapid.SampledFrom([]string{"none", "length", "length", "chunked", "silent"}).Draw(t, "framing")
 	switch a.Framing {
+	case "silent":
+		a.Sent = rapid.IntRange(0, 2).Draw(t, "sent")
 	case "length":
 		a.Declared = rapid.SampledFrom([]int{0, 1, 33, 512, 4096, 70000}).Draw(t, "declared")
 		switch rapid.IntRange(0, 2).Draw(t, "sentClass") {
@@ -285,7 +287,7 @@ func checkConnect(c ConnectCase, o *vf.Obs) error {
 	pool := map[string]any{
 		"id": "p",
 		"gun": map[string]any{"type": "connect", "target": px.Addr(), "response-header-timeout": "400ms",
-			"disable-keep-alives": !c.KeepAlive},
+			"dial": map[string]any{"timeout": "400ms"}, "disable-keep-alives": !c.KeepAlive},
 		"ammo":    map[string]any{"type": "uri", "file": name, "passes": 1},
 		"result":  map[string]any{"type": "phout", "destination": out},
 		"rps":     map[string]any{"type": "once", "times": c.Entries + 5},
